@@ -148,11 +148,13 @@ class Quantity:
     def __eq__(self, other):
         if isinstance(other, (int, float)):
             other = Quantity(other)
-        if np.all(other.magnitude.value!=0):
-            other.to(self.units())
-        if not np.allclose(self.magnitude.value, other.magnitude.value, rtol=MAGNITUDE_PRECISION):
+        magnitude, baseunits = other.magnitude, other.baseunits
+        if np.all(magnitude.value!=0):
+            baseunits = BaseUnits(self.units())
+            magnitude = self._convert(other.magnitude, other.baseunits, baseunits)
+        if not np.allclose(self.magnitude.value, magnitude.value, rtol=MAGNITUDE_PRECISION):
             return False
-        if not self.baseunits==other.baseunits:
+        if not self.baseunits==baseunits:
             return False
         return True
     
@@ -183,9 +185,9 @@ class Quantity:
         elif ufunc==np.power:
             return Quantity(ufunc(inputs[0].magnitude.value,inputs[1]), inputs[0].baseunits*inputs[1])
         elif ufunc in [np.sin, np.cos, np.tan]:
-            return Quantity(ufunc(inputs[0].to('rad').magnitude.value))
+            return Quantity(ufunc(inputs[0]._convert(inputs[0].magnitude, inputs[0].baseunits, BaseUnits('rad')).value))
         elif ufunc in [np.arcsin, np.arccos, np.arctan]:
-            return Quantity(ufunc(inputs[0].to(None).magnitude.value),'rad')
+            return Quantity(ufunc(inputs[0]._convert(inputs[0].magnitude, inputs[0].baseunits, BaseUnits(None)).value),'rad')
         elif ufunc in [np.isnan, np.isnat]:
             return ufunc(inputs[0].magnitude.value)
         else:
@@ -269,17 +271,17 @@ def implements(np_function):
 @implements(np.linspace)
 def linspace(a, b, c, **kwargs):
     if isinstance(a,Quantity):
-        b = b.to(a.baseunits) if isinstance(b,Quantity) else Quantity(b, a.baseunits)
+        b = Quantity(b.value(a.baseunits), a.baseunits) if isinstance(b,Quantity) else Quantity(b, a.baseunits)
     else:
-        a = a.to(b.baseunits) if isinstance(a,Quantity) else Quantity(a, b.baseunits)
+        a = Quantity(a.value(b.baseunits), b.baseunits) if isinstance(a,Quantity) else Quantity(a, b.baseunits)
     return Quantity(np.linspace(a.magnitude.value, b.magnitude.value, c, **kwargs), a.baseunits)
 
 @implements(np.logspace)
 def logspace(a, b, c, **kwargs):
     if isinstance(a,Quantity):
-        b = b.to(a.baseunits) if isinstance(b,Quantity) else Quantity(b, a.baseunits)
+        b = Quantity(b.value(a.baseunits), a.baseunits) if isinstance(b,Quantity) else Quantity(b, a.baseunits)
     else:
-        a = a.to(b.baseunits) if isinstance(a,Quantity) else Quantity(a, b.baseunits)
+        a = Quantity(a.value(b.baseunits), b.baseunits) if isinstance(a,Quantity) else Quantity(a, b.baseunits)
     return Quantity(np.logspace(a.magnitude.value, b.magnitude.value, c, **kwargs), a.baseunits)
 
 @implements(np.absolute)
